@@ -185,7 +185,10 @@ def colours(ctx):
             check(f'rgba(20%,40%,60%,{al})', (51, 102, 153, float(al)), 'rgba(%)')
         exact_hsl = {(0, 100, 50): (255, 0, 0), (60, 100, 50): (255, 255, 0), (120, 100, 50): (0, 255, 0), (180, 100, 50): (0, 255, 255), (240, 100, 50): (0, 0, 255),
                      (300, 100, 50): (255, 0, 255), (0, 0, 0): (0, 0, 0), (0, 0, 100): (255, 255, 255), (120, 100, 100): (255, 255, 255), (120, 100, 0): (0, 0, 0),
-                     (120, 100, 25): (0, 128, 0), (0, 100, 25): (128, 0, 0), (240, 100, 25): (0, 0, 128), (0, 0, 50): (128, 128, 128), (360, 100, 50): (255, 0, 0)}
+                     (120, 100, 25): (0, 128, 0), (0, 100, 25): (128, 0, 0), (240, 100, 25): (0, 0, 128), (0, 0, 50): (128, 128, 128), (360, 100, 50): (255, 0, 0),
+                     # the hue is an angle: it wraps (CSS3 Color 4.2.4), negative and beyond one turn
+                     (-120, 100, 50): (0, 0, 255), (-240, 100, 50): (0, 255, 0), (480, 100, 50): (0, 255, 0), (420, 100, 50): (255, 255, 0), (720, 100, 50): (255, 0, 0),
+                     (-60, 100, 50): (255, 0, 255), (600, 100, 25): (0, 0, 128)}
         for (h, s_, l_), rgb in exact_hsl.items():
             # 25% lightness: 0.5 * 255 = 127.5 -> either neighbour is a correct rounding; accept the library's choice within 1
             pv = PropertyValue(f'hsl({h}, {s_}%, {l_}%)')
@@ -231,7 +234,7 @@ def css_string(content, q='"'):
 def strings_and_urls(ctx):
     cssutils = _quiet()
     PropertyValue = PV
-    alphabet = ['a', 'f', '1', '"', "'", '\\', '(', ')', ' ', '\n', '\r', '\f', 'é', ';', ',', '/']
+    alphabet = ['a', 'f', '1', '"', "'", '\\', '(', ')', ' ', '\n', '\r', '\f', 'é', ';', ',', '/', '\t', '\xa0', '\u3000', '\u2028', '\x0b']
     maxlen = 3 if ctx.tier == 'quick' else 4
     n = 0
     kinds = set()
